@@ -333,8 +333,16 @@ def run_impl(script: str, payload, timeout=1800):
     env = dict(os.environ)
     env.update({"PYTHONPATH": REPO + os.pathsep + os.path.join(VERIF, "tools"), "PYTHONHASHSEED": "0",
                 "INFERNO_VERIF": "1", "OMP_NUM_THREADS": "1", "MKL_NUM_THREADS": "1"})
-    r = subprocess.run([PY, script], input=json.dumps(payload), stdout=subprocess.PIPE, stderr=subprocess.PIPE,
-                       text=True, env=env, cwd=VERIF, timeout=timeout)
+    data = json.dumps(payload)
+    for attempt in range(3):
+        r = subprocess.run([PY, script], input=data, stdout=subprocess.PIPE, stderr=subprocess.PIPE,
+                           text=True, env=env, cwd=VERIF, timeout=timeout)
+        # a python process that dies by a signal (negative status) without writing a traceback was killed from outside
+        # (out-of-memory killer on an overloaded machine): that says nothing about the code under test - run it again
+        if not (r.returncode < 0 and not r.stderr.strip()):
+            break
+        TRANSIENT.append({"cmd": os.path.basename(script), "rc": r.returncode, "attempt": attempt + 1})
+        time.sleep(10 * (attempt + 1))
     if r.returncode != 0:
         raise RuntimeError(f"implementation harness {script} failed:\n{r.stderr[-3000:]}")
     return json.loads(r.stdout)
